@@ -56,8 +56,8 @@ Theorem unpad_no_panic : forall p, unpad_go p <> Panic.
 Proof. exact unpad_go_no_panic_l. Qed.
 Print Assumptions unpad_no_panic.
 
-Theorem issuer_evaluate_no_panic : forall hpke_open parse_pk sig_verify registered sign_and_seal data,
-  eval3 hpke_open parse_pk sig_verify registered sign_and_seal data <> Panic.
+Theorem issuer_evaluate_no_panic : forall hpke_open cfg kid parse_pk sig_verify registered sign_and_seal data,
+  eval3 hpke_open cfg kid parse_pk sig_verify registered sign_and_seal data <> Panic.
 Proof. exact eval3_no_panic_l. Qed.
 Print Assumptions issuer_evaluate_no_panic.
 
@@ -76,5 +76,5 @@ Print Assumptions verify_request_no_panic.
 (** length-prefixed strings with declared lengths up to 2^62-1 (from C19) *)
 Theorem consume_varint_bytes_never_panics : forall b,
   match consume_varint_bytes b with Panic => False | _ => True end.
-Proof. intro b. pose proof (consume_varint_bytes_safe_l b) as H. destruct (consume_varint_bytes b) as [[[v n]|]| |]; auto. Qed.
+Proof. exact consume_varint_bytes_never_panics_l. Qed.
 Print Assumptions consume_varint_bytes_never_panics.
